@@ -5,6 +5,44 @@ _ALL = ["C%02d" % i for i in range(1, 21)]
 
 CHECKS = [
     {
+        "property_id": "C05",
+        "level": "exploration",
+        "technique": "property-based testing (Hypothesis): generated systems/states vs the documented Hamiltonian "
+                     "from closed-form models and 6th-order finite differences",
+        "text": "Every system class, metric type and user-function return convention is generated; values are "
+                "compared with the documented formula evaluated independently of mici, derivative methods with "
+                "high-order finite differences of that reference, and totals with the sums of components. "
+                "Sampling: bounds are dimension <= 4 and the zoo's model families.",
+        "design_ref": "DESIGN.md section 2, C05",
+        "note": "Trusts numpy.linalg and the zoo's closed forms (self-checked against finite differences at "
+                "start-up); positions where a constraint Jacobian is rank deficient or a SoftAbs Hessian is exactly "
+                "singular are discarded and counted.",
+    },
+    {
+        "property_id": "C10",
+        "level": "exploration",
+        "technique": "property-based testing (Hypothesis): recursive expression-tree generator over all matrix "
+                     "classes/options vs dense numpy reference, failing sub-expression localised",
+        "text": "Random expression trees (depth <= 3/4, size <= 6) over every concrete class and constructor option "
+                "are compared observable by observable with dense linear algebra on an independently built "
+                "reference; type-level usability of T/inv/scalar multiples of symmetric and positive-definite "
+                "operands is checked. Sampling, bounded depth and size.",
+        "design_ref": "DESIGN.md section 2, C10",
+        "note": "Trusts numpy/scipy dense linear algebra; tolerance 1e-10 times the product of condition numbers "
+                "along the tree; low-rank factors have full column rank by construction.",
+    },
+    {
+        "property_id": "C11",
+        "level": "exploration",
+        "technique": "property-based testing (Hypothesis): directional derivatives of dense formulas by 6th-order "
+                     "finite differences vs reported gradients, structure check",
+        "text": "All 12 differentiable classes with all options, including SoftAbs at repeated and nearly repeated "
+                "eigenvalues and nested block/low-rank compositions; <grad, D> must equal the derivative of the "
+                "dense formula along a generated structured direction D. Sampling, size <= 5.",
+        "design_ref": "DESIGN.md section 2, C11",
+        "note": "Trusts numpy.linalg.slogdet/solve and the finite-difference error bound (1e-8 relative).",
+    },
+    {
         "property_id": "C20",
         "level": "exploration",
         "technique": "property-based testing (Hypothesis): generated helper calls and operator programs "
